@@ -391,7 +391,8 @@ func c34Findings() []c34Finding {
 				strings.Contains(d.A, "header size") && strings.Contains(d.A, "is wrong")
 		}},
 		{ID: "FF8", Repro: reproFF8, Match: func(h prog.History, pair string, d *Divergence, src string) bool {
-			return pair == "interpreter~vm" && d.Sig == "class ok/ vs user/errors.DefaultUserError" && strings.Contains(d.B, "missing location") &&
+			// whatever the interpreter does with the nil result (ok, force-nil, ...), the VM aborts with "missing location"
+			return pair == "interpreter~vm" && strings.HasSuffix(d.Sig, " vs user/errors.DefaultUserError") && strings.Contains(d.B, "missing location") &&
 				(strings.Contains(src, "CompositeType(") || strings.Contains(src, "IntersectionType("))
 		}},
 		{ID: "FR3", Repro: reproFR3, Match: func(h prog.History, pair string, d *Divergence, src string) bool {
